@@ -4,13 +4,14 @@ package main
 // discharge obligations, compare with known findings, write evidence.
 
 import (
-	"os/exec"
-	"context"
 	"bytes"
+	"context"
 	"encoding/json"
 	"fmt"
+	"go/token"
 	"go/types"
 	"os"
+	"os/exec"
 	"path/filepath"
 	"sort"
 	"strings"
@@ -21,32 +22,33 @@ import (
 )
 
 type PropSpec struct {
-	ID         string   `json:"id"`
-	Title      string   `json:"title"`
-	Functions  []string `json:"functions"`   // "pkg::key" (pkg relative to internal/)
-	Roots      []string `json:"roots"`       // sweep roots: everything reachable is verified for safety
-	Exclude    []string `json:"exclude"`     // reachable functions left out, with reason in Notes
-	ExcludePkgs []string `json:"exclude_pkgs"` // packages whose functions are trusted (not swept), with the reason in notes
-	Kinds      []string `json:"kinds"`       // obligation kinds claimed (empty = all)
-	SweepKinds []string `json:"sweep_kinds"` // kinds claimed for functions reached only by the sweep
-	ExcludeObligations []string `json:"exclude_obligations"` // obligations of the listed functions that belong to another property
-	OnlyObligations map[string][]string `json:"only_obligations"` // function-name substring -> the only obligations (substrings) of it this property claims
-	Lemmas     []string `json:"lemmas"`
-	Trusted    []string `json:"trusted_base"`
-	Uncovered  []string `json:"uncovered"`
-	Notes      []string `json:"notes"`
-	Bounded    []string `json:"bounded"`
-	BoundedChecks []BoundedCheck `json:"bounded_checks"` // stand-ins for functions outside the verifier's reach: never counted as proved
-	Level      string   `json:"level"`
+	ID                 string              `json:"id"`
+	Title              string              `json:"title"`
+	Functions          []string            `json:"functions"`           // "pkg::key" (pkg relative to internal/)
+	Roots              []string            `json:"roots"`               // sweep roots: everything reachable is verified for safety
+	Exclude            []string            `json:"exclude"`             // reachable functions left out, with reason in Notes
+	ExcludePkgs        []string            `json:"exclude_pkgs"`        // packages whose functions are trusted (not swept), with the reason in notes
+	Kinds              []string            `json:"kinds"`               // obligation kinds claimed (empty = all)
+	SweepKinds         []string            `json:"sweep_kinds"`         // kinds claimed for functions reached only by the sweep
+	ExcludeObligations []string            `json:"exclude_obligations"` // obligations of the listed functions that belong to another property
+	OnlyObligations    map[string][]string `json:"only_obligations"`    // function-name substring -> the only obligations (substrings) of it this property claims
+	Lemmas             []string            `json:"lemmas"`
+	FsWriterPkgs       []string            `json:"fs_writer_packages"` // packages (relative to internal/) whose fs-writers-only clause this property claims
+	Trusted            []string            `json:"trusted_base"`
+	Uncovered          []string            `json:"uncovered"`
+	Notes              []string            `json:"notes"`
+	Bounded            []string            `json:"bounded"`
+	BoundedChecks      []BoundedCheck      `json:"bounded_checks"` // stand-ins for functions outside the verifier's reach: never counted as proved
+	Level              string              `json:"level"`
 }
 
 // BoundedCheck runs the real function against its intended contract on every
 // input up to a stated bound (an in-package Go test injected with -overlay).
 type BoundedCheck struct {
-	Name  string `json:"name"`  // obligation-like name: pkg.Func#bounded:label
-	Pkg   string `json:"pkg"`   // package directory relative to internal/
-	File  string `json:"file"`  // test source under /verif/bounded/
-	Bound string `json:"bound"` // the bound, in words
+	Name      string `json:"name"`  // obligation-like name: pkg.Func#bounded:label
+	Pkg       string `json:"pkg"`   // package directory relative to internal/
+	File      string `json:"file"`  // test source under /verif/bounded/
+	Bound     string `json:"bound"` // the bound, in words
 	StandsFor string `json:"stands_for"`
 }
 
@@ -61,23 +63,23 @@ type KnownFinding struct {
 }
 
 type ObligResult struct {
-	Name    string `json:"name"`
-	Kind    string `json:"kind"`
-	Paths   int    `json:"paths"`
-	Result  string `json:"result"` // discharged | failed | undecided | known-finding
-	Backend string `json:"backend"`
-	Ms      int64  `json:"ms"`
-	Pos     string `json:"pos,omitempty"`
-	Note    string `json:"note,omitempty"`
+	Name    string            `json:"name"`
+	Kind    string            `json:"kind"`
+	Paths   int               `json:"paths"`
+	Result  string            `json:"result"` // discharged | failed | undecided | known-finding
+	Backend string            `json:"backend"`
+	Ms      int64             `json:"ms"`
+	Pos     string            `json:"pos,omitempty"`
+	Note    string            `json:"note,omitempty"`
 	Model   map[string]string `json:"model,omitempty"`
 	query   string
 	raw     string
 }
 
 type group struct {
-	name   string
-	kind   string
-	obs    []*Oblig
+	name string
+	kind string
+	obs  []*Oblig
 }
 
 // outDir: where evidence and replays are written (selftests redirect it).
@@ -233,17 +235,17 @@ func fnRef(fn *ssa.Function) string {
 }
 
 type fnRun struct {
-	fn      *ssa.Function
-	swept   bool // reached only via sweep
-	obligs  []*Oblig
-	errs    []string
-	paths   int
-	ms      int64
-	rets    int
-	unmod   map[string]int
-	assumed map[string]bool
-	trusted map[string]bool
-	calls   map[string]bool
+	fn          *ssa.Function
+	swept       bool // reached only via sweep
+	obligs      []*Oblig
+	errs        []string
+	paths       int
+	ms          int64
+	rets        int
+	unmod       map[string]int
+	assumed     map[string]bool
+	trusted     map[string]bool
+	calls       map[string]bool
 	hasContract bool
 }
 
@@ -444,14 +446,14 @@ func dischargeEach(disj []*Term, want []*Term, timeoutS int, all bool, res *Obli
 }
 
 type Evidence struct {
-	PropertyID string                 `json:"property_id"`
-	Tier       string                 `json:"tier"`
-	Seed       int64                  `json:"seed"`
-	Level      string                 `json:"level"`
-	Coverage   map[string]interface{} `json:"coverage"`
-	Assumptions []string              `json:"assumptions"`
-	WallS      float64                `json:"wall_s"`
-	Violations int                    `json:"violations"`
+	PropertyID  string                 `json:"property_id"`
+	Tier        string                 `json:"tier"`
+	Seed        int64                  `json:"seed"`
+	Level       string                 `json:"level"`
+	Coverage    map[string]interface{} `json:"coverage"`
+	Assumptions []string               `json:"assumptions"`
+	WallS       float64                `json:"wall_s"`
+	Violations  int                    `json:"violations"`
 }
 
 func checkProperty(id, tier string) int {
@@ -779,6 +781,148 @@ func checkProperty(id, tier string) int {
 		}
 		extraResults = append(extraResults, res)
 	}
+	// no-blocking-ops clauses: no channel send, receive or blocking select in the
+	// function, its closures, or the same-package functions it calls statically
+	for _, r := range runs {
+		c := P.contractFor(r.fn)
+		if c == nil || !c.NoBlockingOps {
+			continue
+		}
+		var bad []string
+		seen := map[*ssa.Function]bool{}
+		var scan func(fn *ssa.Function, depth int)
+		scan = func(fn *ssa.Function, depth int) {
+			if fn == nil || seen[fn] || depth > 6 {
+				return
+			}
+			seen[fn] = true
+			for _, b := range fn.Blocks {
+				for _, instr := range b.Instrs {
+					what := ""
+					switch in := instr.(type) {
+					case *ssa.Send:
+						what = "channel send"
+					case *ssa.UnOp:
+						if in.Op == token.ARROW {
+							what = "channel receive"
+						}
+					case *ssa.Select:
+						if in.Blocking {
+							what = "blocking select"
+						}
+					case *ssa.MakeClosure:
+						scan(in.Fn.(*ssa.Function), depth+1)
+					case *ssa.Call:
+						if callee := in.Common().StaticCallee(); callee != nil && isRepoFunc(callee) && callee.Pkg == r.fn.Pkg {
+							scan(callee, depth+1)
+						}
+					case *ssa.Defer:
+						if callee := in.Call.StaticCallee(); callee != nil && isRepoFunc(callee) && callee.Pkg == r.fn.Pkg {
+							scan(callee, depth+1)
+						}
+					}
+					if what != "" {
+						bad = append(bad, what+" in "+fnDisplay(fn)+" ("+P.Fset.Position(instr.Pos()).String()+")")
+					}
+				}
+			}
+		}
+		scan(r.fn, 0)
+		sort.Strings(bad)
+		res := &ObligResult{Name: fnDisplay(r.fn) + "#frame:no-blocking-ops", Kind: "frame", Paths: 1, Backend: "instruction scan", Result: "discharged", Note: fmt.Sprintf("%d functions scanned (the function, its closures, same-package static callees); goroutines it starts and other packages' functions are not followed", len(seen))}
+		if len(bad) > 0 {
+			res.Result = "undecided"
+			res.Note += "; found: " + strings.Join(bad, "; ")
+		}
+		extraResults = append(extraResults, res)
+	}
+	// fs-writers-only clauses of the claimed packages: every call of a library
+	// function that creates, replaces, renames or removes a file sits in one of
+	// the functions the package's contract file names
+	for _, rel := range prop.FsWriterPkgs {
+		pkgPath := modPath + "/internal/" + rel
+		var allowed []string
+		if ps := P.Specs[pkgPath]; ps != nil {
+			allowed = ps.FsWriters
+		}
+		var bad []string
+		nScanned, nCalls := 0, 0
+		var scan func(fn *ssa.Function)
+		scan = func(fn *ssa.Function) {
+			nScanned++
+			for _, b := range fn.Blocks {
+				for _, instr := range b.Instrs {
+					var cc *ssa.CallCommon
+					switch in := instr.(type) {
+					case *ssa.Call:
+						cc = in.Common()
+					case *ssa.Go:
+						cc = &in.Call
+					case *ssa.Defer:
+						cc = &in.Call
+					}
+					if cc == nil || cc.IsInvoke() {
+						continue
+					}
+					callee := cc.StaticCallee()
+					if callee == nil || callee.Pkg == nil {
+						// a file-writing function taken as a value would escape the scan
+						for _, a := range cc.Args {
+							if f, ok := a.(*ssa.Function); ok && fsWriterFunc(f, nil) {
+								bad = append(bad, fnDisplay(fn)+" passes "+f.String()+" as a value")
+							}
+						}
+						continue
+					}
+					if !fsWriterFunc(callee, cc.Args) {
+						continue
+					}
+					nCalls++
+					ok := false
+					owner := fn
+					for owner.Parent() != nil {
+						owner = owner.Parent()
+					}
+					for _, a := range allowed {
+						if funcKey(owner) == a {
+							ok = true
+						}
+					}
+					if !ok {
+						bad = append(bad, fmt.Sprintf("%s calls %s (%s)", fnDisplay(fn), callee.String(), P.Fset.Position(instr.Pos())))
+					}
+				}
+			}
+			for _, af := range fn.AnonFuncs {
+				scan(af)
+			}
+		}
+		var keys []string
+		for k, fn := range P.Funcs {
+			if fn.Pkg != nil && fn.Pkg.Pkg.Path() == pkgPath && fn.Parent() == nil && fn.Blocks != nil {
+				keys = append(keys, k)
+			}
+		}
+		sort.Strings(keys)
+		for _, k := range keys {
+			scan(P.Funcs[k])
+		}
+		sort.Strings(bad)
+		res := &ObligResult{Name: rel + "#frame:fs-writers-only", Kind: "frame", Paths: 1, Backend: "instruction scan", Result: "discharged",
+			Note: fmt.Sprintf("%d functions of the package scanned, %d file-modifying library calls, all inside: %s", nScanned, nCalls, strings.Join(allowed, ", "))}
+		if len(allowed) == 0 {
+			res.Note = fmt.Sprintf("%d functions of the package scanned, no file-modifying library call allowed", nScanned)
+		}
+		if nScanned == 0 {
+			res.Result = "undecided"
+			res.Note = "package not found: " + pkgPath
+		}
+		if len(bad) > 0 {
+			res.Result = "undecided"
+			res.Note += "; outside them: " + strings.Join(bad, "; ")
+		}
+		extraResults = append(extraResults, res)
+	}
 	// callers-only clauses of the functions under contract
 	for _, r := range runs {
 		c := P.contractFor(r.fn)
@@ -1057,4 +1201,26 @@ func runBoundedCheck(bc BoundedCheck, tier string) (string, bool, error) {
 		return o, true, nil
 	}
 	return o, false, fmt.Errorf("bounded test did not complete: %v", runErr)
+}
+
+// fsWriterFunc: library functions that create, replace, rename or remove a file.
+// os.OpenFile with the constant flag O_RDONLY (0) only reads.
+func fsWriterFunc(callee *ssa.Function, args []ssa.Value) bool {
+	if callee.Pkg == nil {
+		return false
+	}
+	switch callee.Pkg.Pkg.Path() + "." + callee.Name() {
+	case "os.Create", "os.Rename", "os.Remove", "os.RemoveAll", "os.WriteFile", "os.Mkdir", "os.MkdirAll",
+		"os.Truncate", "os.Chmod", "os.Chown", "os.Symlink", "os.Link", "os.CreateTemp", "os.MkdirTemp",
+		"io/ioutil.WriteFile", "io/ioutil.TempFile", "io/ioutil.TempDir":
+		return true
+	case "os.OpenFile":
+		if len(args) >= 2 {
+			if c, ok := args[1].(*ssa.Const); ok && c.Value != nil && c.Int64() == 0 {
+				return false
+			}
+		}
+		return true
+	}
+	return false
 }
